@@ -429,7 +429,7 @@ class AccumulateSpec(BfsSpec):
         S.outcome(tuple((key_of(b), tuple(b.meter), len(b.bar), b.is_full()) for b in st.track.bars))
 
     def canon(self, st):
-        return track_canon(st.track)
+        return (track_canon(st.track), engine.deep_key(st.track))
 
 
 def run_accumulate(case):
@@ -632,7 +632,7 @@ class GateSpec(BfsSpec):
         check_track(st.track, st.ref, engine.S)
 
     def canon(self, st):
-        return (self.instrument, track_canon(st.track))
+        return (self.instrument, track_canon(st.track), engine.deep_key(st.track))
 
 
 def run_gate(case):
@@ -833,7 +833,8 @@ class CompositionSpec(BfsSpec):
         S.outcome((len(st.tracks), tuple(st.selected), tuple(len(ts.ref.items()) for ts in st.tracks)))
 
     def canon(self, st):
-        return (tuple(track_canon(ts.track) for ts in st.tracks), tuple(st.comp.selected_tracks))
+        return (tuple(track_canon(ts.track) for ts in st.tracks), tuple(st.comp.selected_tracks),
+                engine.deep_key([st.comp] + [ts.track for ts in st.tracks]))
 
 
 def run_composition(case):
